@@ -229,6 +229,17 @@ def check(ctx):
                           why + ': a member that is present with the value None (or another falsy value) is skipped, so an ill-typed None is not rejected by the '
                           'type check and surfaces later as a foreign exception or as bytes', stmt='presence by value')
 
+    # ---- R6: both checkers visit every component: the container classes hand every member / element / selected alternative to its own check
+    ctx.rule('C12.R6', 'the type checker and the constraints checker visit every member, element and selected alternative (no component is skipped by configuration)')
+    from .C11 import containers_recurse
+    for rel6 in ('asn1tools/codecs/type_checker.py', 'asn1tools/codecs/constraints_checker.py'):
+        for cn, coll, f6, ok in containers_recurse(model, rel6):
+            ctx.instance('C12.R6', '%s::%s.encode checks %s' % (rel6, cn, 'every entry of %s' % coll if coll else 'its inner / selected type'), 'ok' if ok else 'VIOLATION', node=f6, file=rel6)
+            if not ok:
+                ctx.violation('C12.R6', rel6, f6, '%s::%s.encode' % (rel6, cn),
+                              'the container no longer hands every child (%s) to the child\'s own check: a component that is skipped is never rejected, so an ill-typed or '
+                              'out-of-constraint value reaches the codec and ends as bytes or as a foreign exception without the path' % (coll or 'the selected member'), stmt='recursion')
+
     # ---- R2
     INIT = 'asn1tools/codecs/__init__.py'
     ewl = model.cls(INIT, 'ErrorWithLocation')
@@ -588,3 +599,8 @@ REFACTORS = [
 MUTANTS.append(dict(name='add_location also drops an element with the name of the last one', file='asn1tools/codecs/__init__.py',
                     old="""                (not self.location or element != self.location[-1])):""",
                     new="""                (not self.location or element.name != self.location[-1].name)):""", expect='C12.R2'))
+
+MUTANTS.append(dict(name='constraints checker walks only the members it considers constrained', file='asn1tools/codecs/constraints_checker.py',
+                    old="""        for member in self.members:
+            name = member.name""", new="""        for member in [m for m in self.members if m.is_bound()]:
+            name = member.name""", expect='C12.R6'))
